@@ -24,6 +24,7 @@ structure Cand where
   extra     : Nat     -- rank of extra_sort_info (build tag; "" ↦ 0)
   tag       : Nat     -- rank of tag_score
   readable  : Bool    -- resolve_candidate returns a distribution (false: MetadataError)
+  file      : Nat := 0 -- rank of `filename or ""` (last sort-key component since the D10 repair)
 deriving Repr, DecidableEq, Inhabited
 
 structure Params where
@@ -34,14 +35,15 @@ structure Params where
   budget     : Option Nat    -- max_downgrade
 deriving Repr, DecidableEq
 
-/-- `Candidate.sortkey` order: (version, extra_sort_info, type, tag_score), lexicographic -/
+/-- `Candidate.sortkey` order: (version, extra_sort_info, type, tag_score, filename), lexicographic -/
 def keyLt (a b : Cand) : Prop :=
   a.ver < b.ver ∨ (a.ver = b.ver ∧ (a.extra < b.extra ∨ (a.extra = b.extra ∧
-    (a.typ < b.typ ∨ (a.typ = b.typ ∧ a.tag < b.tag)))))
+    (a.typ < b.typ ∨ (a.typ = b.typ ∧ (a.tag < b.tag ∨ (a.tag = b.tag ∧ a.file < b.file)))))))
 
 instance : DecidableRel keyLt := fun a b => by unfold keyLt; exact inferInstance
 
-def keyEq (a b : Cand) : Prop := a.ver = b.ver ∧ a.extra = b.extra ∧ a.typ = b.typ ∧ a.tag = b.tag
+def keyEq (a b : Cand) : Prop :=
+  a.ver = b.ver ∧ a.extra = b.extra ∧ a.typ = b.typ ∧ a.tag = b.tag ∧ a.file = b.file
 
 /-- `check_usability(...) is None` -/
 def usable (hasEq allowPre : Bool) (c : Cand) : Bool :=
